@@ -230,6 +230,113 @@ Definition hmon_step (shared : bool) (m : hmon) (e : list N * obs) : hmon :=
 Definition handles_ok (shared : bool) (tr : list (list N * obs)) : bool :=
   h_good (fold_left (hmon_step shared) tr (mkHmon 1 1 false true)).
 
+(* ------------------------------------------------------------------------------------ *)
+(* C08 (placement of destruction) on the encoded trace: a value is destroyed only together with
+   the send future that carries it (drop of that future), by the drop of the LAST receiver
+   handle, or with the channel -- never while a receiver handle is alive.  This is the
+   trace-level reading of C08_drops_only_where_allowed; [d_carry] = value carried by each send
+   future (from its creation until the value is observed to move). *)
+Record dmon := mkDmon { d_receivers : nat; d_carry : list (option N); d_ok : bool }.
+
+Definition dmon_step (shared : bool) (m : dmon) (e : list N * obs) : dmon :=
+  let '(l, ob) := e in
+  let mv := pairs (o_val ob) in
+  let dropped := map snd (filter (fun p => N.eqb (fst p) V_DROPPED) mv) in
+  let moved := map snd mv in
+  let carry1 := match l with
+                | [0%N; f; v] => upd (N.to_nat f) (Some v) (d_carry m)
+                | _ => d_carry m
+                end in
+  let recv1 := match l with
+               | [13%N] => S (d_receivers m)
+               | [16%N] => pred (d_receivers m)
+               | [32%N; _] => if shared then pred (d_receivers m) else d_receivers m
+               | _ => d_receivers m
+               end in
+  let none := match dropped with [] => true | _ => false end in
+  let allowed :=
+    match l with
+    | [3%N; f] => forallb (fun v => match nth (N.to_nat f) carry1 None with
+                                    | Some v' => N.eqb v v' | None => false end) dropped
+    | [16%N] => none || Nat.eqb recv1 0
+    | [32%N; _] => none || (shared && Nat.eqb recv1 0)
+    | [20%N] => true
+    | _ => none
+    end in
+  mkDmon recv1
+         (map (fun c => match c with
+                        | Some v => if memN v moved then None else Some v
+                        | None => None end) carry1)
+         (d_ok m && allowed).
+
+Definition drops_placed_ok (shared : bool) (ks : nat) (tr : list (list N * obs)) : bool :=
+  d_ok (fold_left (dmon_step shared) tr (mkDmon 1 (repeat None ks) true)).
+
+(* ------------------------------------------------------------------------------------ *)
+(* C11 (close wakes everybody) on the encoded trace: when a call closes the channel - an
+   explicit close() that reports NewlyClosed, or the drop of the last sender / receiver
+   handle that reports that it closed the channel - no future stays pending without having
+   been woken through the waker of its latest poll.  [k_r f] / [k_s f] = latest waker of
+   receive / send future f if its latest poll returned Pending, and whether that waker has
+   been invoked since. *)
+Record kmon := mkKmon { k_r : list (option N * bool); k_s : list (option N * bool); k_ok : bool }.
+
+Definition k_wake (wakes : list N) (x : option N * bool) : option N * bool :=
+  match x with
+  | (Some w, b) => (Some w, b || memN w wakes)
+  | y => y
+  end.
+
+Definition k_unwoken (x : option N * bool) : bool :=
+  match x with (Some _, false) => true | _ => false end.
+
+Definition kmon_step (m : kmon) (e : list N * obs) : kmon :=
+  let '(l, ob) := e in
+  let pend (w : N) : option N * bool := if res_is R_PENDING ob then (Some w, false) else (None, false) in
+  let m1 :=
+    match l with
+    | [0%N; f; _] | [2%N; f] | [3%N; f] => mkKmon (k_r m) (upd (N.to_nat f) (None, false) (k_s m)) (k_ok m)
+    | [1%N; f; w] => mkKmon (k_r m) (upd (N.to_nat f) (pend w) (k_s m)) (k_ok m)
+    | [4%N; f] | [6%N; f] => mkKmon (upd (N.to_nat f) (None, false) (k_r m)) (k_s m) (k_ok m)
+    | [5%N; f; w] => mkKmon (upd (N.to_nat f) (pend w) (k_r m)) (k_s m) (k_ok m)
+    | _ => m
+    end in
+  let r2 := map (k_wake (o_wake ob)) (k_r m1) in
+  let s2 := map (k_wake (o_wake ob)) (k_s m1) in
+  let closing := match l with
+                 | [9%N] | [14%N] | [16%N] => res_is R_TRUE ob
+                 | _ => false
+                 end in
+  mkKmon r2 s2 (k_ok m1 && (negb closing || negb (existsb k_unwoken r2 || existsb k_unwoken s2))).
+
+Definition close_wakes_ok (kr ks : nat) (tr : list (list N * obs)) : bool :=
+  k_ok (fold_left kmon_step tr (mkKmon (repeat (None, false) kr) (repeat (None, false) ks) true)).
+
+(* runs of the model on encoded operations with whole-call handle drops (what the harness
+   executes): every call respects the contract, no handle drop is split into its sections *)
+Fixpoint mtrace (s : state) (ls : list (list N)) : list (list N * obs) :=
+  match ls with
+  | [] => []
+  | l :: r => let '(s', ob) := mstep s l in (l, ob) :: mtrace s' r
+  end.
+
+Definition mlegal (s : state) (l : list N) : bool :=
+  match l with
+  | [14%N] => negb (gone s) && Nat.ltb 0 (senders s)
+  | [16%N] => negb (gone s) && Nat.ltb 0 (receivers s)
+  | [11%N] | [12%N] | [17%N] | [18%N] | [19%N] => false
+  | _ => match decode l with Some o => legal s o | None => false end
+  end.
+
+Fixpoint mlegal_run (s : state) (ls : list (list N)) : bool :=
+  match ls with
+  | [] => true
+  | l :: r => mlegal s l && mlegal_run (fst (mstep s l)) r
+  end.
+
+Definition minjected (ls : list (list N)) : list tag :=
+  flat_map (fun l => match l with [0%N; _; v] => [v] | [7%N; v] => [v] | _ => [] end) ls.
+
 (* whole handle drops (codes 14 / 16) reach the monitors as one handle operation carrying the
    merged observation of their sections *)
 Definition decode_mon (l : list N) : option op :=
@@ -248,6 +355,8 @@ Definition monitor (which : N) (cfg : list N) (tr : list (list N * obs)) : bool 
       let kr := N.to_nat kr in let ks := N.to_nat ks in let c := N.to_nat c in
       match which with
       | 8%N => conservation_ok (dec_trace tr)
+      | 21%N => close_wakes_ok kr ks tr
+      | 18%N => drops_placed_ok (match cfg with _ :: _ :: _ :: sh :: _ => negb (N.eqb sh 0) | _ => false end) ks tr
       | 9%N => fifo_ok ks c (dec_trace tr)
       | 10%N => recv_wakeup_ok kr ks c (dec_trace tr)
       | 11%N => match cfg with _ :: _ :: _ :: sh :: _ => if N.eqb sh 0 then true else handles_ok true tr | _ => true end
